@@ -2,6 +2,7 @@ import HcipyVerif.Lemmas.ApertureMain
 import HcipyVerif.Lemmas.AperturePolygon
 import HcipyVerif.Lemmas.ApertureKeck
 import HcipyVerif.Lemmas.AperturePolar
+import HcipyVerif.Lemmas.ApertureStat
 
 /-!
 # C12 — Apertures depend only on the physical points, not on the grid representation
@@ -23,7 +24,7 @@ All theorems are about `HcipyVerif.Aperture` (Model/Aperture.lean), the model of
   `as_('cartesian')` (→ `evalPts`) for every other maker.
 
 All four are executed by the driver (`C12 eval sep|pts|polar`, `C12 regsub`, `C12 keck`, `C12 vlt`,
-`C12 super`) and compared with the running code — values, and for the regular polygon also the
+`C12 super`, `C12 superstat`) and compared with the running code — values, and for the regular polygon also the
 bounding slices / the mask and the sub-array that `func(grid, return_with_mask=True)` returns.
 
 Every statement holds for **all** axis lists (any length, unsorted, repeated values) and all
@@ -297,6 +298,53 @@ theorem supersampled_error_kinds (s : Shape) (nx ny : Nat) (xs ys : List Rat) :
       (2 ≤ xs.length ∧ 2 ≤ ys.length ∧ (nx = 0 ∨ ny = 0))) :=
   supersampled_error_iff s nx ny xs ys
 
+/-! ### the other statistics: 'sum', 'min', 'max' (`supersampledStat`, driver op `C12 superstat`) -/
+
+/-- statistic 'mean' of the general form is the `supersampled` of the theorems above -/
+theorem supersampled_statistic_mean (s : Shape) (nx ny : Nat) (xs ys : List Rat) :
+    supersampledStat .mean s nx ny xs ys = supersampled s nx ny xs ys :=
+  supersampledStat_mean s nx ny xs ys
+
+/-- the statistic plays no role in whether and how the call fails (the code raises before it looks
+at the statistic) -/
+theorem supersampled_statistic_errors (st : Stat) (s : Shape) (nx ny : Nat) (xs ys : List Rat)
+    (e : SuperErr) :
+    supersampledStat st s nx ny xs ys = .error e ↔ supersampled s nx ny xs ys = .error e :=
+  supersampledStat_error_iff st s nx ny xs ys e
+
+/-- … and every statistic is defined exactly where 'mean' is -/
+theorem supersampled_statistic_defined_iff (st : Stat) (s : Shape) (nx ny : Nat) (xs ys : List Rat) :
+    (∃ f, supersampledStat st s nx ny xs ys = .ok f) ↔ (2 ≤ xs.length ∧ 2 ≤ ys.length ∧ 1 ≤ nx ∧ 1 ≤ ny) :=
+  supersampledStat_isOk_iff st s nx ny xs ys
+
+/-- **'min' and 'max' only select**: every value they return is the aperture's value at some
+physical point — whatever the aperture (transmissions included) -/
+theorem supersampled_min_max_selects {st : Stat} (hst : st = .min ∨ st = .max) {s : Shape} (hw : WF s)
+    {nx ny : Nat} {xs ys f : List Rat} (h : supersampledStat st s nx ny xs ys = .ok f) :
+    ∀ v ∈ f, ∃ p, v = val s p :=
+  supersampledStat_minmax_val hst hw h
+
+/-- hence the 'min' / 'max' of a binary aperture is again 0/1-valued (in particular in [0,1]) -/
+theorem supersampled_min_max_binary {st : Stat} (hst : st = .min ∨ st = .max) {s : Shape}
+    (hb : Binary s) (hw : WF s) {nx ny : Nat} {xs ys f : List Rat}
+    (h : supersampledStat st s nx ny xs ys = .ok f) : ∀ v ∈ f, v = 0 ∨ v = 1 := by
+  intro v hv
+  obtain ⟨p, rfl⟩ := supersampledStat_minmax_val hst hw h v hv
+  exact binary_val hb p
+
+/-- 'mean' is 'sum' divided by the number of dithered grids `ny·nx` -/
+theorem supersampled_sum_mean {s : Shape} {nx ny : Nat} {xs ys f : List Rat}
+    (h : supersampledStat .sum s nx ny xs ys = .ok f) :
+    supersampled s nx ny xs ys = .ok (f.map fun v => v / ((ny * nx : Nat) : Rat)) :=
+  supersampledStat_sum_mean h
+
+/-- the 'sum' of a binary aperture counts sub-samples: between 0 and `ny·nx` (so 'sum' does **not**
+stay in [0,1]; the clause is about 'mean', 'min', 'max') -/
+theorem supersampled_sum_bounds {s : Shape} (hb : Binary s) (hw : WF s) {nx ny : Nat}
+    {xs ys f : List Rat} (h : supersampledStat .sum s nx ny xs ys = .ok f) :
+    ∀ v ∈ f, 0 ≤ v ∧ v ≤ ((ny * nx : Nat) : Rat) :=
+  supersampledStat_sum_bounds hb hw h
+
 /-! ## one sample per grid point
 
 The clause "the returned field is attached to the grid it was asked for" is about object identity
@@ -318,6 +366,11 @@ theorem field_length_polar (s : Shape) (qs : List PPt) (h : PolarWF s) (hq : ∀
 theorem field_length_supersampled {s : Shape} (hw : WF s) {nx ny : Nat} {xs ys f : List Rat}
     (h : supersampled s nx ny xs ys = .ok f) : f.length = (sepPoints xs ys).length := by
   rw [supersampled_length hw h, sepPoints_length, Nat.mul_comm]
+
+theorem field_length_supersampled_statistic {st : Stat} {s : Shape} (hw : WF s) {nx ny : Nat}
+    {xs ys f : List Rat} (h : supersampledStat st s nx ny xs ys = .ok f) :
+    f.length = (sepPoints xs ys).length := by
+  rw [supersampledStat_length hw h, sepPoints_length, Nat.mul_comm]
 
 /-! ## the regular polygon's tests versus their definition -/
 
@@ -460,6 +513,9 @@ example : ∀ q ∈ [((0 : Rat), (1 : Rat), (0 : Rat)), (2, 3/5, -4/5)], PolarPt
   intro q hq
   simp at hq
   rcases hq with rfl | rfl <;> exact ⟨by norm_num, by norm_num⟩
+
+example : ∃ f, supersampledStat .max (.circle 1 0 0) 2 1 [0, 1] [0, 1, 2] = .ok f :=
+  (supersampledStat_isOk_iff .max _ 2 1 [0, 1] [0, 1, 2]).mpr (by simp)
 
 example : (vltSegment 3 (vltLines [((-1, -1), (-4, 0)), ((-1, -1), (0, -4)), ((1, 1), (4, 0)), ((1, 1), (0, 4))])
     (vltShape 4 (1/2) [] none) none).isSome = true := by decide +kernel
